@@ -94,6 +94,22 @@ func (q *PriorityQueue[T]) Purge() {
 	heap.Init(q.internal)
 }
 
+// PurgeValues clears the queue and returns the removed values in one atomic step
+func (q *PriorityQueue[T]) PurgeValues() []any {
+	q.mx.Lock()
+	defer q.mx.Unlock()
+
+	values := make([]any, 0, len(q.internal.items))
+	for _, item := range q.internal.items {
+		values = append(values, item.Value)
+	}
+
+	q.internal.items = make([]*enqItem[T], 0)
+	heap.Init(q.internal)
+
+	return values
+}
+
 // to satisfy the IQueue interface
 func (q *PriorityQueue[T]) Close() error {
 	q.closed.Store(true)
